@@ -39,6 +39,7 @@ class Machine:
         self.ctx = spec["ctx"]
         self.body = spec["body"]
         self.subs = spec.get("subs", [])
+        self.efuncs = spec.get("efuncs", [])
         self.helpers = spec.get("helpers", [])
         self.push_targets = sorted(self._push_targets(self.body) | {t for s in self.subs for t in self._push_targets(s["body"])})
         self.power_up()
@@ -415,6 +416,13 @@ class Machine:
         elif k == "return":
             v = self.ev(s["e"], env) if s.get("e") is not None else None
             return ("return", v)
+        elif k == "awaitcall":
+            f = self.efuncs[s["f"]]
+            for _ in self.exec_block(f["body"], {}):
+                raise AssertionError("pause point in a plain function")
+            self.fresh = False  # the call's assignments are actions of the process
+            self.labels.add("await_call")
+            return (yield from self.exec_stmt({"k": "await", "c": f["ret"]}, env))
         elif k == "awaitsub":
             sub = self.subs[s["sub"]]
             # a bare object passed as argument is aliased (Python passes the object, the sub-coroutine reads its
